@@ -300,7 +300,7 @@ def solve(ob: Obligation, timeout_s=60.0, conditioned=True, confirm=None):
             SOLVER_STATS["abstract_unsat"] += 1
         return Result("unsat", solver_s=t_total, detail="abstract" if has_defined else "exact")
     if has_defined:
-        if confirm is not None and r == "sat":
+        if confirm is not None and r in ("sat", "unknown"):
             # candidate witness: the abstract query pinned to a generic point of the input space
             pins = _pinned(atoms, seed=len(atoms))
             extra = "\n".join(f"(assert (= {_aname(i)} {_rat(v)}))" for i, v in pins)
@@ -309,7 +309,8 @@ def solve(ob: Obligation, timeout_s=60.0, conditioned=True, confirm=None):
             cands = []
             if r0 == "sat":
                 cands.append(_model_values(s0, atoms, bvars))
-            cands.append(_model_values(s, atoms, bvars))
+            if r == "sat":
+                cands.append(_model_values(s, atoms, bvars))
             for vals, bv, m in cands:
                 res = Result("sat", vals, bv, t_total, "abstract-model witness confirmed by replay on the real code", m)
                 try:
